@@ -741,13 +741,14 @@ Section C04.
   Qed.
 
   (* a new pass starts with nothing settled *)
-  Lemma dl_MWaitHead spec S fr s : DL spec S (mkC MWaitHead fr s) -> exists S', DL spec S' (step P (mkC MWaitHead fr s)).
+  Lemma dl_MWaitHead spec S fr s : DL spec S (mkC MWaitHead fr s) ->
+    exists S', DL spec S' (step P (mkC MWaitHead fr s)) /\ (computed root s = false -> forall d, ~ S' d).
   Proof.
     intros (HFL & HD & _). pose proof (fl_MWaitHead P root res spec fr s HFL) as HFL'.
     destruct HFL as ((Hr & Hf & HS & Ht & _) & HF & HK). cbn in Hf, HS, Ht, HF, HK. subst fr.
     cbn [step c_mode c_frames c_st] in *. destruct (computed root s) eqn:Hc.
-    - exists S. split; [exact HFL'|]. cbn. auto.
-    - exists (fun _ => False). split; [exact HFL'|]. cbn. split.
+    - exists S. split; [|intros E; discriminate]. split; [exact HFL'|]. cbn. auto.
+    - exists (fun _ => False). split; [|intros _ d []]. split; [exact HFL'|]. cbn. split.
       + apply (deps_ok_step root s); [destruct Ht as (o & tk & Hg); rewrite Hg; discriminate|exact HD|apply deps_step_view; reflexivity].
       + destruct Ht as (o & tk & Hg).
         assert (o = None) as -> by (unfold computed in Hc; rewrite Hg in Hc; cbn in Hc; destruct o; [discriminate|reflexivity]).
@@ -782,7 +783,8 @@ Section C04.
     apply (deps_ok_step root s); [destruct Ht as (o & tk & Hg); rewrite Hg; discriminate|exact HD|apply (deps_step_cwb spec); exact HS].
   Qed.
 
-  Lemma dl_MExecLoop spec S fr s : DL spec S (mkC MExecLoop fr s) -> exists S', DL spec S' (step P (mkC MExecLoop fr s)).
+  Lemma dl_MExecLoop spec S fr s : DL spec S (mkC MExecLoop fr s) ->
+    exists S', DL spec S' (step P (mkC MExecLoop fr s)) /\ (forall d, S' d -> S d \/ exists ts, tasks s = d :: ts).
   Proof.
     intros (HFL & HD & HPk). pose proof (fl_MExecLoop P root res spec fr s HFL) as HFL'.
     destruct HFL as ((Hr & Hf & HS & Ht & _) & HF & HK). cbn in Hf, HS, Ht, HF, HK. subst fr.
@@ -792,10 +794,10 @@ Section C04.
     assert (Hend : tasks s = [] -> stuck S s).
     { intros E. destruct (pk_end _ _ _ _ HPk E) as [Hc|HSr]; [left; exact Hc|right; split; [exact HSr|apply (pk_ok _ _ _ _ HPk)]]. }
     destruct (Nat.leb (length (tasks s)) 0) eqn:Hle.
-    { exists S. split; [exact HFL'|]. cbn. split; [exact HD|]. apply Nat.leb_le in Hle. apply Hend.
+    { exists S. split; [|intros d0 Hd0; left; exact Hd0]. split; [exact HFL'|]. cbn. split; [exact HD|]. apply Nat.leb_le in Hle. apply Hend.
       destruct (tasks s); [reflexivity|cbn in Hle; lia]. }
-    destruct (Z.ltb (p_maxstack P) (Z.of_nat (length (tasks s)))); [exists S; split; [exact HFL'|exact I]|].
-    destruct (tasks s) as [|x ts] eqn:Hts; [exists S; split; [exact HFL'|]; cbn; split; [exact HD|apply Hend; reflexivity]|].
+    destruct (Z.ltb (p_maxstack P) (Z.of_nat (length (tasks s)))); [exists S; split; [|intros d0 Hd0; left; exact Hd0]; split; [exact HFL'|exact I]|].
+    destruct (tasks s) as [|x ts] eqn:Hts; [exists S; split; [|intros d0 Hd0; left; exact Hd0]; split; [exact HFL'|]; cbn; split; [exact HD|apply Hend; reflexivity]|].
     (* generic pop: the stack loses x, the heap may change at x only *)
     assert (Hpop : forall S' s2, deps_step s s2 -> tasks s2 = x :: ts -> (forall h, h <> x -> get h s2 = get h s) ->
               ((S' = S /\ computed x s2 = true) \/ (S' = S_add S x /\ S_ok S' s2 x)) ->
@@ -809,7 +811,7 @@ Section C04.
         + intros e He. change (computed e (pop_task s2)) with (computed e s2). destruct Hd as (_ & D2 & _). apply D2. exact He.
         + exact Hx. }
     destruct (computed x s) eqn:Hcx.
-    { exists S. split; [exact HFL'|]. cbn [c_mode c_st]. apply (Hpop S s); [apply deps_step_refl|exact Hts|auto|left; auto]. }
+    { exists S. split; [|intros d0 Hd0; left; exact Hd0]. split; [exact HFL'|]. cbn [c_mode c_st]. apply (Hpop S s); [apply deps_step_refl|exact Hts|auto|left; auto]. }
     destruct (get x s) as [[out [tk|kind idx key a|o'|]]|] eqn:Hg.
     - assert (out = None) as -> by (unfold computed in Hcx; rewrite Hg in Hcx; cbn in Hcx; destruct out; [discriminate|reflexivity]).
       destruct (is_blocked tk s) eqn:Hb.
@@ -822,7 +824,7 @@ Section C04.
           set (s2 := pause_contexts x (set_task x (tk_set_ds tk false) s)) in *.
           set (tk' := tk_with_ctxs (tk_set_ds tk false) (tk_ctxs (tk_set_ds tk false)) false) in *.
           pose proof (computed_upd_none s s2 x tk tk' Hg U) as Hcomp.
-          exists (S_add S x). split; [exact HFL'|]. cbn [c_mode c_st].
+          exists (S_add S x). split; [|intros d0 [Hd0| ->]; [left; exact Hd0|right; exists ts; reflexivity]]. split; [exact HFL'|]. cbn [c_mode c_st].
           apply (Hpop (S_add S x) s2).
           -- apply (deps_step_upd s s2 x None tk None tk' Hg U); [auto|left; reflexivity|cbn; lia].
           -- rewrite (tasks_of_regs s); [exact Hts|]. unfold s2. rewrite regs_pause_contexts, regs_set_task. reflexivity.
@@ -847,7 +849,7 @@ Section C04.
           rewrite Hgt in HFL' |- *. change (tk_deps tk') with (tk_deps tk) in HFL' |- *.
           assert (Htk2 : tasks s2 = x :: ts).
           { rewrite (tasks_of_regs s); [exact Hts|]. unfold s2. rewrite regs_resume_contexts, regs_set_task. reflexivity. }
-          exists S. split; [exact HFL'|]. cbn [c_mode c_st]. split.
+          exists S. split; [|intros d0 Hd0; left; exact Hd0]. split; [exact HFL'|]. cbn [c_mode c_st]. split.
           -- apply (deps_ok_step root s); [exact Hroot|exact HD|]. eapply deps_step_trans; [|apply deps_step_view; reflexivity].
              apply (deps_step_upd s s2 x None tk None tk' Hg U); [auto|left; reflexivity|cbn; lia].
           -- apply (pass_push root S s _ x ts tk tk' HPk HF HD Hts Hg Hds).
@@ -861,7 +863,7 @@ Section C04.
         rewrite (computed_resume_contexts spec None s x HS x), Hcx in HFL' |- *.
         pose proof (resume_entry spec None s x None tk HS Hg) as U.
         set (tk' := tk_with_ctxs tk (tk_ctxs tk) true) in *.
-        exists S. split; [exact HFL'|]. cbn [c_mode c_st].
+        exists S. split; [|intros d0 Hd0; left; exact Hd0]. split; [exact HFL'|]. cbn [c_mode c_st].
         assert (Fr : frame_t x s (with_active (resume_contexts x s) (Some x))).
         { eapply frame_t_trans; [|apply frame_t_view; reflexivity].
           apply (frame_t_upd x s _ None tk None tk' Hg U); [|auto|left; reflexivity|cbn; lia].
@@ -875,14 +877,14 @@ Section C04.
     - (* item: settled *)
       assert (out = None) as -> by (unfold computed in Hcx; rewrite Hg in Hcx; cbn in Hcx; destruct out; [discriminate|reflexivity]).
       assert (Hh : heap (schedule_batch (kind, idx) s) = heap s) by (unfold schedule_batch; destruct (b_done _); [reflexivity|]; destruct (existsb _ _); reflexivity).
-      exists (S_add S x). split; [exact HFL'|]. cbn [c_mode c_st].
+      exists (S_add S x). split; [|intros d0 [Hd0| ->]; [left; exact Hd0|right; exists ts; reflexivity]]. split; [exact HFL'|]. cbn [c_mode c_st].
       apply (Hpop (S_add S x) (schedule_batch (kind, idx) s)).
       + apply deps_step_view. exact Hh.
       + rewrite (tasks_of_regs s); [exact Hts|]. rewrite regs_schedule_batch. reflexivity.
       + intros h _. unfold get. rewrite Hh. reflexivity.
       + right. split; [reflexivity|]. right. exists kind, idx, key, a. unfold get. rewrite Hh. exact Hg.
     - (* lazy *)
-      exists S. split; [exact HFL'|]. cbn [c_mode c_st].
+      exists S. split; [|intros d0 Hd0; left; exact Hd0]. split; [exact HFL'|]. cbn [c_mode c_st].
       apply (Hpop S (put x (mkFut (Some o') (KLazy o')) s)).
       + apply (deps_step_nontask s _ x (mkFut out (KLazy o')) (mkFut (Some o') (KLazy o')) Hg); cbn; try discriminate.
         apply upd_entry_put.
@@ -1129,9 +1131,9 @@ Section C04.
   Proof.
     destruct c as [m fr s]. destruct m; cbn [c_mode is_unwind]; intros Hu HI; try discriminate.
     - exists spec, S. apply dl_MValue; exact HI.
-    - destruct (dl_MWaitHead spec S fr s HI) as (S' & H). exists spec, S'. exact H.
+    - destruct (dl_MWaitHead spec S fr s HI) as (S' & H & _). exists spec, S'. exact H.
     - exists spec, S. apply dl_MAfterExec; exact HI.
-    - destruct (dl_MExecLoop spec S fr s HI) as (S' & H). exists spec, S'. exact H.
+    - destruct (dl_MExecLoop spec S fr s HI) as (S' & H & _). exists spec, S'. exact H.
     - exists spec, S. apply dl_MResume; exact HI.
     - destruct (dl_MRun spec S _ _ fr s HI) as (spec' & H). exists spec', S. exact H.
     - exists spec, S. apply dl_MContRet; exact HI.
